@@ -123,6 +123,15 @@ pub fn observe_str(x: &str) {
     let latin1: String = x.as_bytes().iter().map(|b| *b as char).collect();
     OBS.with(|o| o.borrow_mut().push(Value::from(latin1)));
 }
+/// a directory that does not exist yet and is private to this run (natively: taken from VERIF_SCRATCH, which the
+/// driver creates and removes; under mirsym: a path in the modelled file system)
+#[inline(never)]
+pub fn scratch_dir() -> String {
+    match std::env::var("VERIF_SCRATCH") {
+        Ok(d) => d,
+        Err(_) => std::env::temp_dir().join(format!("verif-scratch-{}", std::process::id())).to_str().unwrap().to_string(),
+    }
+}
 #[inline(never)]
 pub fn set_env(key: &str, v: usize) {
     std::env::set_var(key, v.to_string());
